@@ -135,6 +135,15 @@ type Sched struct {
 	Probe          bool
 	ProbeWait      time.Duration
 	ProbeWaitShort time.Duration
+	steps          int // number of Step calls so far
+}
+
+// StepNo is the index of the Step call in progress (0-based; the position of its event in the trace).
+func (s *Sched) StepNo() int {
+	s.mu.Lock()
+	defer s.mu.Unlock()
+
+	return s.steps - 1
 }
 
 // libFamilies are the label prefixes of the verifYield points in /repo, one family per instrumented
@@ -278,6 +287,9 @@ func (s *Sched) waitParked(th *schedThread, d time.Duration) bool {
 // (no such thread, finished, or still blocked from an earlier step). A thread that was blocked and
 // has woken meanwhile is parked at its wake label; Step then runs its next segment.
 func (s *Sched) Step(name string) string {
+	s.mu.Lock()
+	s.steps++
+	s.mu.Unlock()
 	r := s.step(name)
 	s.mu.Lock()
 	switch r {
